@@ -115,6 +115,9 @@ func (fc *FnCtx) callFunc(fr *Frame, st *State, reach string, callee *ssa.Functi
 		if prim := fc.eng.contracts[name]; eff == "" && prim != nil {
 			eff = prim.Effect // a property-scoped view inherits the verified effect class
 		}
+		if eff == "" && !fc.eng.inRepo(callee) && !blockingExternal(name) {
+			eff = "nonblocking" // library function under an assumed contract: only the listed library calls block
+		}
 		if eff != "nonblocking" && (len(st.nbLocks) > 0 || (fc.con != nil && fc.con.Effect == "nonblocking")) {
 			fc.blockingOp(fr, st, reach, "call of "+shortName(callee)+" (not declared non-blocking)")
 		}
